@@ -1,25 +1,25 @@
 /-
   C17: concrete inputs used by the counterexample theorems and non-vacuity examples of
   HL/Props/C17.lean.  Every text is a witness line of replays/C17/*.jsonl; the token lists are
-  what the real lexer (parser.NewLexer / Next) returns for it, copied from those files (the
-  check replays them on every run: model = implementation on each).
+  what the real lexer (parser.NewLexer / Next) returns for it, copied from those files by
+  tools/c17_witness.py (the check replays them on every run: model = implementation on each).
 -/
 import HL.Model.Ast
 namespace HL.Lemmas.SemTok.W
 open HL
 
-/-- `"2024-01-15 payee|note\n"` and the lexer's tokens for it (replays/C17/pipe-position.jsonl). -/
+/-- `"2024-01-15 payee|note\n"` and the lexer's tokens for it (replays/C17/pipe-position.jsonl, line 1). -/
 def pipeText : Bytes := [50, 48, 50, 52, 45, 48, 49, 45, 49, 53, 32, 112, 97, 121, 101, 101, 124, 110, 111, 116, 101, 10]
 def pipeToks : List Token := [
   ⟨.date, [50, 48, 50, 52, 45, 48, 49, 45, 49, 53], ⟨1, 1, 0⟩, ⟨1, 11, 10⟩⟩,
   ⟨.text, [112, 97, 121, 101, 101], ⟨1, 12, 11⟩, ⟨1, 17, 16⟩⟩,
-  ⟨.pipe, [124], ⟨1, 18, 17⟩, ⟨1, 18, 17⟩⟩,
+  ⟨.pipe, [124], ⟨1, 17, 16⟩, ⟨1, 18, 17⟩⟩,
   ⟨.text, [110, 111, 116, 101], ⟨1, 18, 17⟩, ⟨1, 22, 21⟩⟩,
   ⟨.newline, [10], ⟨1, 22, 21⟩, ⟨2, 1, 22⟩⟩,
   ⟨.eof, [], ⟨2, 1, 22⟩, ⟨2, 1, 22⟩⟩]
--- implementation's array: [0, 0, 10, 3, 0, 0, 11, 5, 2, 0, 0, 6, 1, 11, 0, 0, 0, 4, 10, 0]
+-- implementation's array: [0, 0, 10, 3, 0, 0, 11, 5, 2, 0, 0, 5, 1, 11, 0, 0, 1, 4, 10, 0]
 
-/-- `"2024-01-15 (123) payee\n"` and the lexer's tokens for it (replays/C17/code-length.jsonl). -/
+/-- `"2024-01-15 (123) payee\n"` and the lexer's tokens for it (replays/C17/code-length.jsonl, line 1). -/
 def codeText : Bytes := [50, 48, 50, 52, 45, 48, 49, 45, 49, 53, 32, 40, 49, 50, 51, 41, 32, 112, 97, 121, 101, 101, 10]
 def codeToks : List Token := [
   ⟨.date, [50, 48, 50, 52, 45, 48, 49, 45, 49, 53], ⟨1, 1, 0⟩, ⟨1, 11, 10⟩⟩,
@@ -27,9 +27,9 @@ def codeToks : List Token := [
   ⟨.text, [112, 97, 121, 101, 101], ⟨1, 18, 17⟩, ⟨1, 23, 22⟩⟩,
   ⟨.newline, [10], ⟨1, 23, 22⟩, ⟨2, 1, 23⟩⟩,
   ⟨.eof, [], ⟨2, 1, 23⟩, ⟨2, 1, 23⟩⟩]
--- implementation's array: [0, 0, 10, 3, 0, 0, 11, 3, 7, 0, 0, 6, 5, 2, 0]
+-- implementation's array: [0, 0, 10, 3, 0, 0, 11, 5, 7, 0, 0, 6, 5, 2, 0]
 
-/-- `"2024-01-15 x\n    a:b  3 \"AAPL 2\"\n"` and the lexer's tokens for it (replays/C17/quoted-commodity-length.jsonl). -/
+/-- `"2024-01-15 x\n    a:b  3 \"AAPL 2\"\n"` and the lexer's tokens for it (replays/C17/quoted-commodity-length.jsonl, line 1). -/
 def quotedText : Bytes := [50, 48, 50, 52, 45, 48, 49, 45, 49, 53, 32, 120, 10, 32, 32, 32, 32, 97, 58, 98, 32, 32, 51, 32, 34, 65, 65, 80, 76, 32, 50, 34, 10]
 def quotedToks : List Token := [
   ⟨.date, [50, 48, 50, 52, 45, 48, 49, 45, 49, 53], ⟨1, 1, 0⟩, ⟨1, 11, 10⟩⟩,
@@ -41,18 +41,18 @@ def quotedToks : List Token := [
   ⟨.commodity, [65, 65, 80, 76, 32, 50], ⟨2, 12, 24⟩, ⟨2, 20, 32⟩⟩,
   ⟨.newline, [10], ⟨2, 20, 32⟩, ⟨3, 1, 33⟩⟩,
   ⟨.eof, [], ⟨3, 1, 33⟩, ⟨3, 1, 33⟩⟩]
--- implementation's array: [0, 0, 10, 3, 0, 0, 11, 1, 2, 0, 1, 4, 3, 0, 0, 0, 5, 1, 4, 0, 0, 2, 6, 1, 0]
+-- implementation's array: [0, 0, 10, 3, 0, 0, 11, 1, 2, 0, 1, 4, 3, 0, 0, 0, 5, 1, 4, 0, 0, 2, 8, 1, 0]
 
-/-- `"2024-01-15\tpayee\n"` and the lexer's tokens for it (replays/C17/text-trimmed-position.jsonl). -/
-def trimText : Bytes := [50, 48, 50, 52, 45, 48, 49, 45, 49, 53, 9, 112, 97, 121, 101, 101, 10]
+/-- `"2024-01-15  payee \n"` and the lexer's tokens for it (replays/C17/text-trimmed-position.jsonl, line 1). -/
+def trimText : Bytes := [50, 48, 50, 52, 45, 48, 49, 45, 49, 53, 32, 194, 160, 112, 97, 121, 101, 101, 32, 10]
 def trimToks : List Token := [
   ⟨.date, [50, 48, 50, 52, 45, 48, 49, 45, 49, 53], ⟨1, 1, 0⟩, ⟨1, 11, 10⟩⟩,
-  ⟨.text, [112, 97, 121, 101, 101], ⟨1, 11, 10⟩, ⟨1, 17, 16⟩⟩,
-  ⟨.newline, [10], ⟨1, 17, 16⟩, ⟨2, 1, 17⟩⟩,
-  ⟨.eof, [], ⟨2, 1, 17⟩, ⟨2, 1, 17⟩⟩]
--- implementation's array: [0, 0, 10, 3, 0, 0, 10, 5, 2, 0]
+  ⟨.text, [112, 97, 121, 101, 101], ⟨1, 12, 11⟩, ⟨1, 19, 19⟩⟩,
+  ⟨.newline, [10], ⟨1, 19, 19⟩, ⟨2, 1, 20⟩⟩,
+  ⟨.eof, [], ⟨2, 1, 20⟩, ⟨2, 1, 20⟩⟩]
+-- implementation's array: [0, 0, 10, 3, 0, 0, 12, 5, 2, 0]
 
-/-- `"account a:b\r\n"` and the lexer's tokens for it (replays/C17/text-trimmed-position.jsonl). -/
+/-- `"account a:b\r\n"` and the lexer's tokens for it (replays/C17/text-trimmed-position.jsonl, line 3). -/
 def trim2Text : Bytes := [97, 99, 99, 111, 117, 110, 116, 32, 97, 58, 98, 13, 10]
 def trim2Toks : List Token := [
   ⟨.directive, [97, 99, 99, 111, 117, 110, 116], ⟨1, 1, 0⟩, ⟨1, 8, 7⟩⟩,
@@ -60,9 +60,9 @@ def trim2Toks : List Token := [
   ⟨.text, [], ⟨1, 12, 11⟩, ⟨1, 13, 12⟩⟩,
   ⟨.newline, [10], ⟨1, 13, 12⟩, ⟨2, 1, 13⟩⟩,
   ⟨.eof, [], ⟨2, 1, 13⟩, ⟨2, 1, 13⟩⟩]
--- implementation's array: [0, 0, 7, 6, 0, 0, 8, 3, 0, 1, 0, 3, 0, 10, 1]
+-- implementation's array: [0, 0, 7, 6, 0, 0, 8, 3, 0, 1]
 
-/-- `"; note\r\n"` and the lexer's tokens for it (replays/C17/crlf-comment-length.jsonl). -/
+/-- `"; note\r\n"` and the lexer's tokens for it (replays/C17/crlf-comment-length.jsonl, line 1). -/
 def crlfText : Bytes := [59, 32, 110, 111, 116, 101, 13, 10]
 def crlfToks : List Token := [
   ⟨.comment, [32, 110, 111, 116, 101, 13], ⟨1, 1, 0⟩, ⟨1, 8, 7⟩⟩,
@@ -70,7 +70,7 @@ def crlfToks : List Token := [
   ⟨.eof, [], ⟨2, 1, 8⟩, ⟨2, 1, 8⟩⟩]
 -- implementation's array: [0, 0, 7, 9, 0]
 
-/-- `"2024-01-15 x\n    a:😀  $1\n"` and the lexer's tokens for it (replays/C17/nonbmp-column.jsonl). -/
+/-- `"2024-01-15 x\n    a:😀  $1\n"` and the lexer's tokens for it (replays/C17/nonbmp-column.jsonl, line 1). -/
 def nonbmpText : Bytes := [50, 48, 50, 52, 45, 48, 49, 45, 49, 53, 32, 120, 10, 32, 32, 32, 32, 97, 58, 240, 159, 152, 128, 32, 32, 36, 49, 10]
 def nonbmpToks : List Token := [
   ⟨.date, [50, 48, 50, 52, 45, 48, 49, 45, 49, 53], ⟨1, 1, 0⟩, ⟨1, 11, 10⟩⟩,
@@ -82,17 +82,17 @@ def nonbmpToks : List Token := [
   ⟨.number, [49], ⟨2, 11, 26⟩, ⟨2, 12, 27⟩⟩,
   ⟨.newline, [10], ⟨2, 12, 27⟩, ⟨3, 1, 28⟩⟩,
   ⟨.eof, [], ⟨3, 1, 28⟩, ⟨3, 1, 28⟩⟩]
--- implementation's array: [0, 0, 10, 3, 0, 0, 11, 1, 2, 0, 1, 4, 4, 0, 0, 0, 5, 1, 1, 0, 0, 1, 1, 4, 0]
+-- implementation's array: [0, 0, 10, 3, 0, 0, 11, 1, 2, 0, 1, 4, 4, 0, 0, 0, 6, 1, 1, 0, 0, 1, 1, 4, 0]
 
-/-- `"; é, tag:value\n"` and the lexer's tokens for it (replays/C17/tag-byte-offsets.jsonl). -/
+/-- `"; é, tag:value\n"` and the lexer's tokens for it (replays/C17/tag-byte-offsets.jsonl, line 1). -/
 def tagbText : Bytes := [59, 32, 195, 169, 44, 32, 116, 97, 103, 58, 118, 97, 108, 117, 101, 10]
 def tagbToks : List Token := [
   ⟨.comment, [32, 195, 169, 44, 32, 116, 97, 103, 58, 118, 97, 108, 117, 101], ⟨1, 1, 0⟩, ⟨1, 15, 15⟩⟩,
   ⟨.newline, [10], ⟨1, 15, 15⟩, ⟨2, 1, 16⟩⟩,
   ⟨.eof, [], ⟨2, 1, 16⟩, ⟨2, 1, 16⟩⟩]
--- implementation's array: [0, 6, 4, 5, 0, 0, 4, 5, 12, 0]
+-- implementation's array: [0, 5, 4, 5, 0, 0, 4, 5, 12, 0]
 
-/-- `"2024-01-15 * payee ; k:v, n: w\n    a:b  $1 @ 2 EUR\n"` and the lexer's tokens for it (replays/C17/clean.jsonl). -/
+/-- `"2024-01-15 * payee ; k:v, n: w\n    a:b  $1 @ 2 EUR\n"` and the lexer's tokens for it (replays/C17/clean-example.jsonl, line 1). -/
 def cleanText : Bytes := [50, 48, 50, 52, 45, 48, 49, 45, 49, 53, 32, 42, 32, 112, 97, 121, 101, 101, 32, 59, 32, 107, 58, 118, 44, 32, 110, 58, 32, 119, 10, 32, 32, 32, 32, 97, 58, 98, 32, 32, 36, 49, 32, 64, 32, 50, 32, 69, 85, 82, 10]
 def cleanToks : List Token := [
   ⟨.date, [50, 48, 50, 52, 45, 48, 49, 45, 49, 53], ⟨1, 1, 0⟩, ⟨1, 11, 10⟩⟩,
@@ -111,12 +111,23 @@ def cleanToks : List Token := [
   ⟨.eof, [], ⟨3, 1, 51⟩, ⟨3, 1, 51⟩⟩]
 -- implementation's array: [0, 0, 10, 3, 0, 0, 11, 1, 8, 0, 0, 2, 5, 2, 0, 0, 8, 2, 5, 0, 0, 2, 1, 12, 0, 0, 3, 2, 5, 0, 0, 3, 1, 12, 0, 1, 4, 3, 0, 0, 0, 5, 1, 1, 0, 0, 1, 1, 4, 0, 0, 2, 1, 11, 0, 0, 2, 1, 4, 0, 0, 2, 3, 1, 0]
 
-/-- `"; p q ya:1, a:2\n"` and the lexer's tokens for it (replays/C17/tag-search-position.jsonl). -/
+/-- `"; p q ya:1, a:2\n"` and the lexer's tokens for it (replays/C17/tag-search-position.jsonl, line 1). -/
 def tagsText : Bytes := [59, 32, 112, 32, 113, 32, 121, 97, 58, 49, 44, 32, 97, 58, 50, 10]
 def tagsToks : List Token := [
   ⟨.comment, [32, 112, 32, 113, 32, 121, 97, 58, 49, 44, 32, 97, 58, 50], ⟨1, 1, 0⟩, ⟨1, 16, 15⟩⟩,
   ⟨.newline, [10], ⟨1, 16, 15⟩, ⟨2, 1, 16⟩⟩,
   ⟨.eof, [], ⟨2, 1, 16⟩, ⟨2, 1, 16⟩⟩]
--- implementation's array: [0, 7, 2, 5, 0, 0, 7, 1, 12, 0]
+-- implementation's array: [0, 12, 2, 5, 0, 0, 2, 1, 12, 0]
+
+/-- The tokens the PINNED lexer returned for `pipeText` (before the one-character-token repair
+    8add500): `|` empty and positioned behind its character.  Hand-copied from the witness as it
+    was recorded then; used only by `pinned_pipe_position_counterexample`. -/
+def pipePinnedToks : List Token := [
+  ⟨.date, [50, 48, 50, 52, 45, 48, 49, 45, 49, 53], ⟨1, 1, 0⟩, ⟨1, 11, 10⟩⟩,
+  ⟨.text, [112, 97, 121, 101, 101], ⟨1, 12, 11⟩, ⟨1, 17, 16⟩⟩,
+  ⟨.pipe, [124], ⟨1, 18, 17⟩, ⟨1, 18, 17⟩⟩,
+  ⟨.text, [110, 111, 116, 101], ⟨1, 18, 17⟩, ⟨1, 22, 21⟩⟩,
+  ⟨.newline, [10], ⟨1, 22, 21⟩, ⟨2, 1, 22⟩⟩,
+  ⟨.eof, [], ⟨2, 1, 22⟩, ⟨2, 1, 22⟩⟩]
 
 end HL.Lemmas.SemTok.W
